@@ -63,7 +63,7 @@ def h_sound(su: int, body: int, td: int, c1: int, c2: int, ncl: int, flag: int, 
 HK = ["custom", "subskip", "subfail(custom unclaimed)", "sub_xfail", "sub_uxs"]
 
 
-def run_handler(kind, pos, claim, flav):
+def run_handler(kind, pos, claim, flav, when=0):
     """kind 0: raise CustomError(AssertionError); a user handler (CustomError -> addSkip-like
     'claimed') is inserted at index `pos` (0 = before every stock handler, 1 = after skip, 2 = after
     the failureException handler, 5 = append after Exception) when claim is set.
@@ -101,10 +101,18 @@ def run_handler(kind, pos, claim, flav):
         if kind == 4:
             raise SubUX("u")
 
-    case = P.make_case(P.RET, P.RET, P.RET, [], log, hooks={"body": body})
-    if claim:
+    def install(case):
         n = len(case.exception_handlers)
         case.exception_handlers.insert(min(pos, n), (P.CustomError, user_handler))
+
+    # `when`: the user inserts the handler before run() (0), from setUp (1) or from the test body itself (2):
+    # exception_handlers "is able to be modified at any time"
+    hooks = {"body": (lambda c: (install(c) if (claim and when == 2) else None, body(c)))}
+    if claim and when == 1:
+        hooks["setUp"] = install
+    case = P.make_case(P.RET, P.RET, P.RET, [], log, hooks=hooks)
+    if claim and when == 0:
+        install(case)
     names, exc, _ = L.run_once(case, flav)
     ok_br, seen = L.outcome_of(names, flav)
     # reference: first handler in list order whose class matches
@@ -127,17 +135,18 @@ def run_handler(kind, pos, claim, flav):
     return {"names": names, "seen": seen, "expected": exp, "calls": calls, "problems": problems}
 
 
-def h_handler(kind: int, pos: int, claim: bool, flav: int) -> bool:
+def h_handler(kind: int, pos: int, claim: bool, flav: int, when: int) -> bool:
     """
-    pre: 0 <= kind < 5 and 0 <= pos < 6 and 0 <= flav < 7
+    pre: 0 <= kind < 5 and 0 <= pos < 6 and 0 <= flav < 7 and 0 <= when < 3
     post: _
     """
     try:
         v = dict(kind=ch.sel("kind", kind, 5), pos=ch.sel("pos", pos, 6), claim=ch.cbool(claim),
                  flav=ch.sel("flav", flav, 7))
+        v["when"] = ch.sel("when", when, 3) if v["claim"] else 0
     except ch.Prune:
         return True
-    o = run_handler(v["kind"], v["pos"], v["claim"], v["flav"])
+    o = run_handler(v["kind"], v["pos"], v["claim"], v["flav"], v["when"])
     return ch.finish(not o["problems"], v, nontrivial=True)
 
 
@@ -167,10 +176,10 @@ HARNESSES = [
     Harness(
         "handler", h_handler, lambda tier: [({}, 240)],
         bounds={"quick": "single exception: CustomError(AssertionError) with a user handler inserted at "
-                         "index 0,1,2,3,4,5 or absent; subclasses of SkipTest / failureException / "
+                         "index 0,1,2,3,4,5 or absent, inserted before run(), from setUp or from the test body; subclasses of SkipTest / failureException / "
                          "_ExpectedFailure / _UnexpectedSuccess; x 7 flavours"},
         rule="every path non-trivial (one exception raised)",
-        fidelity=lambda seed: [(k, p, c, f) for k in range(5) for p in (0, 2) for c in (True, False) for f in (2, 4)],
+        fidelity=lambda seed: [(k, p, c, f, w) for k in range(5) for p in (0, 2) for c in (True, False) for f in (2, 4) for w in (0, 2)],
         observe=lambda *a: (lambda o: (o["names"], o["calls"]))(run_handler(*a)),
         describe=lambda *a: run_handler(*a)),
 ]
